@@ -167,6 +167,11 @@ var shapes = []shape{
 	{"alias", "return-two", "match (n) return n.name as a, n.age as <V>", nil},
 	{"alias", "distinct-limit", "match (n) return distinct n.name as <V> limit 5", nil},
 	{"alias", "sp", "match p = shortestPath((a:A)-[*..]->(b:B)) return p as <V>", nil},
+	// lowerings that carry a user alias into other places of the statement (CTE column lists, ranking selects)
+	{"alias", "agg-traversal-count", "match (n:A) match (n)-[:R*1..]->(c:B) with distinct n, count(c) as <V> return n order by <V> desc limit 5", nil},
+	{"alias", "agg-traversal-count-where", "match (n:A) where n.name = 'x' match (n)-[:R*1..3]->(c) with n, count(c) as <V> return n, <V> order by <V> desc limit 3", nil},
+	{"alias", "with-count-order", "match (n)-[r]->(m) with n, count(m) as <V> return n, <V> order by <V> desc", nil},
+	{"alias", "with-collect", "match (n)-[r]->(m) with n, collect(m) as <V> return n, size(<V>)", nil},
 	// supplied parameter values
 	{"param", "where-eq", "match (n) where n.name = $q return n", []string{"string"}},
 	{"param", "contains", "match (n) where n.name contains $q return n", []string{"string"}},
